@@ -19,7 +19,7 @@ Proof. unfold unlock. destruct (lock c) as [[tk' d']|]; [|discriminate]. destruc
 
 Lemma inv_step c e : (forall i t, e = Try i t -> 0 < t) -> Inv c -> Inv (fst (step c e)).
 Proof.
-  intros Hpos (H1 & H2 & H3). destruct e as [dt|i ttl|i|tk0]; cbn [step].
+  intros Hpos (H1 & H2 & H3). destruct e as [dt|i ttl|i|tk0|]; cbn [step]; [| | | |exact (conj H1 (conj H2 H3))].
   - destruct (Z.leb_spec 0 dt); cbn [fst]; [|exact (conj H1 (conj H2 H3))].
     refine (conj _ (conj _ _)); cbn.
     + intros i tk a t Hi. specialize (H1 _ _ _ _ Hi) as (Hf & Ha & Hl). split; [assumption|split; [lia|]].
@@ -114,3 +114,53 @@ Qed.
 (* progress: when the key has no live entry, the next attempt succeeds - nothing else is consulted *)
 Theorem lock_progress c i ttl : tasks c i = Idle -> lock_live c = false -> snd (step c (Try i ttl)) = true.
 Proof. intros Ti L. cbn [step]. rewrite Ti, L. reflexivity. Qed.
+
+(* ---- is_locked ---- *)
+Theorem probe_spec c : snd (step c Probe) = true <-> exists tk d, lock c = Some (tk, d) /\ now c < d.
+Proof.
+  cbn. unfold lock_live. destruct (lock c) as [[tk d]|]; split; intro H.
+  - apply Z.ltb_lt in H. eauto.
+  - destruct H as (tk' & d' & [= <- <-] & H). apply Z.ltb_lt. exact H.
+  - discriminate.
+  - destruct H as (? & ? & ? & _). discriminate.
+Qed.
+Lemma probe_pure c : fst (step c Probe) = c.
+Proof. reflexivity. Qed.
+
+Lemma live_tick_tick c a b : lock_live (tick (tick c a) b) = lock_live (tick c (a + b)).
+Proof. unfold lock_live, tick; cbn. destruct (lock c) as [[? d]|]; [|reflexivity]. rewrite Z.add_assoc. reflexivity. Qed.
+Lemma live_tick_0 c : lock_live (tick c 0) = lock_live c.
+Proof. unfold lock_live, tick; cbn. destruct (lock c) as [[? d]|]; [|reflexivity]. rewrite Z.add_0_r. reflexivity. Qed.
+Lemma dead_stays_dead c d : 0 <= d -> lock_live c = false -> lock_live (tick c d) = false.
+Proof.
+  unfold lock_live, tick; cbn. intros Hd. destruct (lock c) as [[? d0]|]; [|reflexivity].
+  intro H. apply Z.ltb_ge in H. apply Z.ltb_ge. lia.
+Qed.
+
+(* the waiting form answers what the plain form would answer once the wait is over: ceil(wait/step) sleeps of `step`
+   later.  (Liveness only decreases while nothing else touches the key, so the early exit never changes the answer.) *)
+Definition sleeps (w s : Z) : Z := Z.max 0 ((w + s - 1) / s).
+Theorem is_locked_wait_spec fuel : forall c w s b, 0 < s ->
+  is_locked_wait fuel c w s = Some b -> b = lock_live (tick c (sleeps w s * s)).
+Proof.
+  induction fuel as [|f IH]; intros c w s b Hs H; cbn [is_locked_wait] in H; [discriminate|].
+  unfold sleeps. destruct (Z.ltb_spec 0 w) as [Hw|Hw].
+  - assert (Hq : (w + s - 1) / s = (w - s + s - 1) / s + 1).
+    { replace (w + s - 1) with ((w - s + s - 1) + 1 * s) by ring. apply Z.div_add. lia. }
+    assert (Hq0 : 0 <= (w - s + s - 1) / s) by (apply Z.div_pos; lia).
+    destruct (lock_live c) eqn:L.
+    + apply IH in H; [|exact Hs]. rewrite H, live_tick_tick. unfold sleeps. f_equal. f_equal. rewrite Hq. lia.
+    + injection H as <-. symmetry. apply dead_stays_dead; [|exact L]. apply Z.mul_nonneg_nonneg; lia.
+  - injection H as <-. assert ((w + s - 1) / s < 1) by (apply Z.div_lt_upper_bound; lia).
+    replace (Z.max 0 ((w + s - 1) / s)) with 0 by lia. cbn. symmetry. apply live_tick_0.
+Qed.
+(* enough fuel always exists: the loop ends after at most `sleeps w s` rounds *)
+Theorem is_locked_wait_total : forall fuel c w s, 0 < s -> sleeps w s < Z.of_nat fuel -> is_locked_wait fuel c w s <> None.
+Proof.
+  induction fuel as [|f IH]; intros c w s Hs Hf; unfold sleeps in *; [lia|]. cbn [is_locked_wait].
+  destruct (Z.ltb_spec 0 w) as [Hw|Hw]; [|discriminate]. destruct (lock_live c); [|discriminate].
+  apply IH; [exact Hs|]. unfold sleeps.
+  assert (Hq : (w + s - 1) / s = (w - s + s - 1) / s + 1).
+  { replace (w + s - 1) with ((w - s + s - 1) + 1 * s) by ring. apply Z.div_add. lia. }
+  assert (Hq0 : 0 <= (w - s + s - 1) / s) by (apply Z.div_pos; lia). lia.
+Qed.
